@@ -53,6 +53,11 @@ def c06(ctx):
              "path, and no site re-evaluates the same child in a loop; the re-evaluations by design are a reviewed table (loop "
              "condition and body, read-then-write of a compound assignment's destination, the drill-down over nested subscripts). "
              "A target addressed twice (read here, written there) lets a side-effecting subscript select two different slots")
+    rep.rule("C06.R10", "reading an element always asks the value: ProduceVal::visit_array_subscript evaluates the array, then the subscript, and "
+             "yields Val::index(array, subscript) on every non-error path -- no kind of array operand (mysterious, a hole left by "
+             "auto-extension ...) gets an answer of its own, so `not indexable` and `invalid key` stay errors (rule shared with C03.R7)")
+    from .c03 import leaves_rule as _leaves
+    _leaves(ctx, "C06.R10", only_subscript=True)
     rep.rule("C06.R9", "nested subscripts of a write target are collected while walking from the outermost subscript inwards and are "
              "therefore applied in the reverse of the collection order: the sequence they are pushed to is consumed by pop() (or a "
              "reversed iterator), and every index_or_insert on the path takes its key from that sequence")
